@@ -32,7 +32,8 @@ type c05Scn struct {
 	MaxServers int      `json:"maxServers"`
 	Par        int      `json:"par"`
 	ServerFail bool     `json:"serverFail"` // the server under test fails to start (every batch)
-	SrvFault   string   `json:"srvFault"`   // wrapper fault spec (overrides ServerFail): none:<ms> | failstart:1 | garbage:<ms>
+	SrvFault   string   `json:"srvFault"`   // wrapper fault spec (overrides ServerFail): none:<ms> | failstart:1 | garbage:<ms> | slowstop:<ms>
+	CliFault   string   `json:"cliFault"`   // client wrapper fault spec: "" / none | garbageAfterResp:<k> | exitAfterResp:<k>:<code>
 }
 
 type c05Batch struct {
@@ -144,11 +145,15 @@ func c05RunOne(dir string, id int, scn c05Scn) (out c05Out) {
 	if scn.SrvFault != "" {
 		srvFault = scn.SrvFault
 	}
+	cliFault := "none"
+	if scn.CliFault != "" {
+		cliFault = scn.CliFault
+	}
 	flags := &Flags{
 		Verbose:       true, // batches are started in sorted instance order
 		MaxServers:    uint(scn.MaxServers),
 		Parallelism:   uint(scn.Par),
-		ClientCommand: []string{os.Args[0], "verif-helper", "refclient", "none", filepath.Join(base, "client.log"), sock},
+		ClientCommand: []string{os.Args[0], "verif-helper", "refclient", cliFault, filepath.Join(base, "client.log"), sock},
 		ServerCommand: []string{os.Args[0], "verif-helper", "refserver", srvFault, filepath.Join(base, "server.log"), sock},
 	}
 	pr := &c05Printer{}
